@@ -113,6 +113,8 @@ def runModel (j : Json) : Except String Json := do
       steps := steps.push (Json.mkObj [("str", h.str), ("text", textTo txt), ("toks", toksJson txt), ("ready", rdy)])
     else
       if k == "not" then h := h.invert
+      else if k == "setop" then
+        h := h.setOperator (← parseBOp (← op.getObjVal? "o"))
       else
         let x ← match op.getObjVal? "xp" with
           | .ok g => do pure (parseInputNode (← parseGT g))
